@@ -38,7 +38,11 @@ fn blocks(rep: &Replica) -> Vec<String> {
 
 fn main() {
     let path = std::env::args().nth(1).expect("replay file");
-    let doc: serde_json::Value = serde_json::from_slice(&std::fs::read(path).unwrap()).unwrap();
+    let doc: serde_json::Value = serde_json::from_slice(&std::fs::read(&path).unwrap()).unwrap();
+    if doc["property"] == "C07" {
+        c07_debug(&path);
+        return;
+    }
     let history: History = serde_json::from_value(doc["case"]["history"].clone()).unwrap();
     let mut w = World::new(&history.cfgs);
     for (i, s) in history.steps.iter().enumerate() {
@@ -61,5 +65,49 @@ fn main() {
             println!("    pending {:?}", txn.store().pending_update().map(|p| format!("{:?} missing {:?}", p.update, p.missing)));
             println!("    pending_ds {:?}", txn.store().pending_ds());
         }
+    }
+}
+
+#[allow(dead_code)]
+pub fn c07_debug(path: &str) {
+    use std::sync::atomic::{AtomicU64, Ordering};
+    use std::sync::Arc;
+    use vh::interp::run_ops;
+    use vh::props::c07::*;
+    use yrs::undo::Options as UndoOptions;
+    use yrs::UndoManager;
+    let doc: serde_json::Value = serde_json::from_slice(&std::fs::read(path).unwrap()).unwrap();
+    let case: Case = serde_json::from_value(doc["case"].clone()).unwrap();
+    let mut w = World::new(&case.cfgs);
+    let clock = Arc::new(AtomicU64::new(1_000));
+    let c2 = clock.clone();
+    let mut mgr: UndoManager = UndoManager::with_options(UndoOptions { capture_timeout_millis: 500, timestamp: Arc::new(move || c2.load(Ordering::SeqCst)), ..Default::default() });
+    mgr.include_origin("tracked");
+    mgr.expand_scope(&w.reps[0].doc, &w.reps[0].roots.map);
+    let f = Replica::new(Cfg { client: 7001, utf16: false, skip_gc: true, cleanup: false });
+    for step in case.steps.iter() {
+        match step {
+            EStep::Local { ops, origin } => {
+                let e = &w.reps[0];
+                let mut txn = match origin % 3 {
+                    0 => e.doc.transact_mut(),
+                    1 => e.doc.transact_mut_with("tracked"),
+                    _ => e.doc.transact_mut_with("other"),
+                };
+                run_ops(&mut txn, &e.roots, ops, &mut w.alloc, e.cfg.kind());
+            }
+            EStep::Undo => {
+                println!("undo -> {}", mgr.undo_blocking());
+            }
+            _ => {}
+        }
+        let ev = w.reps[0].drain();
+        for u in ev.v1.iter() {
+            println!("EVENT {:?}", Update::decode_v1(u).unwrap());
+            f.apply_v1(u).unwrap();
+        }
+        println!("emitter blocks {:?}", blocks(&w.reps[0]));
+        println!("emitter dump {}", w.reps[0].dump().short());
+        println!("follower dump {}", f.dump().short());
     }
 }
